@@ -339,6 +339,10 @@ func (priv *PrivateKey) inverseOfPrivateKeyPlus1(c *sm2Curve) (*bigmod.Nat, erro
 	if err != nil {
 		return nil, errInvalidPrivateKey
 	}
+	if priv.inverseOfKeyPlus1 == nil {
+		// an earlier call already found this key invalid (the error of that call is not cached)
+		return nil, errInvalidPrivateKey
+	}
 	return priv.inverseOfKeyPlus1, nil
 }
 
